@@ -1,5 +1,7 @@
 #![allow(dead_code)]
 mod util;
+mod lexspec;
+mod p03;
 mod p10;
 mod p23;
 mod p25;
@@ -32,6 +34,7 @@ fn main() {
     std::panic::set_hook(Box::new(|_| {}));
     let mut ctx = Ctx::new(&prop, &tier, seed, out);
     match prop.as_str() {
+        "C03" => p03::run(&mut ctx),
         "C10" => p10::run(&mut ctx),
         "C23" => p23::run(&mut ctx),
         "C25" => p25::run(&mut ctx),
